@@ -230,7 +230,7 @@ def utility_parity_ctor_table(ctx, rule):
     n_cells = 0
     bad = []
     for d in (None, 0.05, 0.0):
-        for rb_ in (None, -0.5, 0.0, 0.5, 1.0, 1.5):
+        for rb_ in (None, -0.5, 0.0, 0.5, 1.0, 1.5, float("nan"), float("inf"), float("-inf")):   # `0 < nan <= 1` is False: rejected
             env = {p["difference_bound"]: d, p["ratio_bound"]: rb_, p["ratio_bound_slack"]: slack}
             n_cells += 1
             try:
